@@ -21,6 +21,7 @@ type IterCheck struct {
 	MultiStore  []string // descriptions of paths with >= 2 stores
 	ZeroPaths   []zeroPath
 	KeyProblems []string
+	Carried     []string // stored values that depend on something carried over from earlier iterations
 	LenOK       bool
 	Whole       bool
 	EarlyExits  int
@@ -300,6 +301,44 @@ func (ic *IterCheck) noteSink(p *Prov, in ssa.Instruction, key, val ssa.Value) {
 	}
 	ic.Sinks = append(ic.Sinks, in)
 	l := ic.Loop
+	// what is stored for this element is computed from this element: a value that travels
+	// round the loop (a phi of the loop header other than the index / element / accumulator)
+	// is something settled by an earlier element
+	{
+		hdr := l.Loop.Header
+		seen := map[ssa.Value]bool{}
+		var walk func(v ssa.Value, depth int) ssa.Value
+		walk = func(v ssa.Value, depth int) ssa.Value {
+			if v == nil || depth > 10 || seen[v] {
+				return nil
+			}
+			seen[v] = true
+			if ph, ok := v.(*ssa.Phi); ok && ph.Block() == hdr {
+				if v == l.Elem || v == ic.Out || (l.Idx != nil && phiFeeds(ph, l.Idx)) {
+					return nil
+				}
+				return v
+			}
+			ins, ok := v.(ssa.Instruction)
+			if !ok {
+				return nil
+			}
+			if !l.Loop.Region()[ins.Block()] && ins.Block() != hdr {
+				return nil // defined before the loop
+			}
+			for _, op := range ins.Operands(nil) {
+				if *op != nil {
+					if c := walk(*op, depth+1); c != nil {
+						return c
+					}
+				}
+			}
+			return nil
+		}
+		if c := walk(val, 0); c != nil {
+			ic.Carried = append(ic.Carried, fmt.Sprintf("the value stored at %s depends on %s, which is carried over from earlier iterations", p.c.InstrPos(in), c.Name()))
+		}
+	}
 	switch ic.Mode {
 	case "fresh-map":
 		if why := p.keyIsLoopKey(key, l, 0); why != "" {
@@ -438,6 +477,18 @@ func (p *Prov) inPlaceSanitised(fn *ssa.Function, v ssa.Value, at *ssa.BasicBloc
 			}
 		}
 		return true
+	}
+	return false
+}
+
+
+// phiFeeds: idx is computed from the header phi ph (the rangeindex phi and its increment).
+func phiFeeds(ph *ssa.Phi, idx ssa.Value) bool {
+	if idx == ssa.Value(ph) {
+		return true
+	}
+	if bo, ok := idx.(*ssa.BinOp); ok {
+		return bo.X == ssa.Value(ph) || bo.Y == ssa.Value(ph)
 	}
 	return false
 }
